@@ -299,13 +299,60 @@ def walk_and_index_order(ctx, ntrees):
     ctx.sample({"tree_paths": expect[:12], "opts": cases[-1]["opts"]} if cases else {})
 
 
+def stitched_listing_order(ctx, n):
+    """The listing of an interrupted version, stitched from an older version one of whose index hunks is unreadable, is still
+    strictly increasing (the two versions cut their hunks at different entries, so the resume point falls inside a hunk)."""
+    cases = []
+    for t in range(n):
+        if t % 2 == 0:
+            t0 = {"k": "d", "mode": 0o755, "mtime": 10**18, "c": {
+                "f%02d" % k: {"k": "f", "data": "%02x" % k, "mode": 0o644, "mtime": 10**18 + k} for k in range(ctx.rng.choice([9, 12, 14]))}}
+        else:
+            t0 = gen.rand_tree(ctx.rng, depth=3, fanout=4, neg_frac=False)
+        t1 = json.loads(json.dumps(t0))
+        for _p, nd in gen.tree_paths(t1):
+            if nd["k"] == "f":
+                nd["mtime"] = nd.get("mtime", 0) + 1000          # every file is written again
+        m0, m1 = ctx.rng.choice([(4, 6), (3, 5), (2, 3), (5, 2), (3, 4)])
+        hunk = ctx.rng.choice([0, 0, 1])
+        kind = ctx.rng.choice(["trunc0", "garbage", "trunchalf"])
+        crash = ctx.rng.randrange(8, 40)
+        steps = [{"op": "init"}, {"op": "mktree", "path": "src", "tree": t0}, {"op": "backup", "opts": {"meph": m0, "mbs": 64, "sfc": 4}},
+                 {"op": "mktree", "path": "src", "tree": t1}, {"op": "backup", "opts": {"meph": m1, "mbs": 64, "sfc": 4}, "plan": {"crash": crash}},
+                 {"op": "damage", "file": "b0000/i/00000/%09d" % hunk, "kind": kind},
+                 {"op": "list", "band": 1}, {"op": "list", "band": 1, "subtree": "/"}, {"op": "versions"}]
+        cases.append({"id": f"s{t}", "steps": steps, "hunk": hunk, "kind": kind})
+    res = ctx.cvh_run(cases)
+    for c in cases:
+        r = res.get(c["id"])
+        ctx.count()
+        if r is None:
+            ctx.oracle_fail("listing/harness-died", "harness died or hung on a stitched-listing case", {"steps": c["steps"]})
+            continue
+        lst = r[6]
+        if lst.get("panic"):
+            ctx.oracle_fail("listing/panic", f"listing panicked: {lst['panic'][:200]}", {"steps": c["steps"]})
+            continue
+        if lst.get("result") != "ok":
+            continue        # the interrupted backup died before it had a version to list
+        lp = [e["apath"] for e in lst["value"]]
+        bad = strictly_increasing(lp)
+        if bad:
+            ctx.oracle_fail("listing/stitched-order", f"the listing of the interrupted version is not strictly increasing at {bad} "
+                                                     f"(older hunk {c['hunk']} made unreadable by {c['kind']})", {"steps": c["steps"]})
+            continue
+        ctx.dist("stitched_listings_with_unreadable_older_hunk", 1)
+        if len(lp) > 3:
+            ctx.nontrivial("stitched:" + json.dumps([c["hunk"], c["kind"], lp[:6]]))
+
+
 def run(ctx):
     quick = ctx.tier == "quick"
     alphabet = sub_alphabet(ctx, 4 if quick else 5, 2)
     depth = 3 if quick else 4
     ctx.cov["rule"] = ("exhaustive: all ordered pairs of paths over a rotating component sub-alphabet (incl. '', '.', '..', NUL) "
                        "to the given depth, model vs implementation (cmp, is_prefix_of, is_valid) + independent documented-rule oracle; "
-                       "random long/invalid paths; generated trees: walk, listing and decoded hunks strictly increasing and complete. "
+                       "random long/invalid paths; generated trees: walk, listing and decoded hunks strictly increasing and complete; listings of interrupted versions stitched from an older version with an unreadable hunk strictly increasing. "
                        "non-trivial = distinct path pair with a != b (matrix) or tree producing more than one hunk")
     paths, codes, valid = matrix_correspondence(ctx, alphabet, depth, 4 if quick else 16)
     direct_order_oracle(ctx, paths, codes, valid, sample=None if quick else 1_500_000)
@@ -323,6 +370,7 @@ def run(ctx):
             break
     ctx.sample({"random_pair": list(pairs[0])})
     walk_and_index_order(ctx, 40 if quick else 600)
+    stitched_listing_order(ctx, 40 if quick else 600)
     ctx.assumptions += ["strings are compared as UTF-8 byte sequences (Rust str::cmp)",
                         "walk/listing/hunk order is checked on generated trees; the walk theorem is in TreeP.v"]
 
